@@ -152,12 +152,26 @@ def traj_arrays(rng, n, pos_cls=None, rot_cls=None, stamp_cls=None):
     pos_cls = pos_cls or POS_CLASSES[rng.integers(len(POS_CLASSES))]
     rot_cls = rot_cls or ROTSEQ_CLASSES[rng.integers(len(ROTSEQ_CLASSES))]
     stamp_cls = stamp_cls or STAMP_CLASSES[rng.integers(len(STAMP_CLASSES))]
-    return {
+    out = {
         "p": positions_of_class(rng, n, pos_cls),
         "R": rotations_of_class(rng, n, rot_cls),
         "t": stamps_of_class(rng, n, stamp_cls),
         "cls": (pos_cls, rot_cls, stamp_cls),
     }
+    if n >= 3 and rng.random() < .08:
+        hold(rng, out)
+    return out
+
+
+def hold(rng, arr, p=.35):
+    """a platform standing still: stretches in which consecutive poses are identical (in place)"""
+    for k in range(1, len(arr["p"])):
+        if rng.random() < p:
+            arr["p"][k] = arr["p"][k - 1]
+            arr["R"][k] = arr["R"][k - 1]
+    if "cls" in arr:
+        arr["cls"] = (arr["cls"][0] + "+held", ) + tuple(arr["cls"][1:])
+    return arr
 
 
 def perturbed_estimate(rng, ref, hostile=True):
@@ -199,6 +213,11 @@ def make_evo(arr, mode="se3", stamped=True, meta=None, flavour="array64"):
         poses = [rm.se3(R, p) for R, p in zip(arr["R"], arr["p"])]
         if flavour == "intmat" and all_integer(arr["p"]) and all_integer(arr["R"]):
             poses = [np.rint(P).astype(np.int64) for P in poses]  # integer-dtype pose matrices
+        if flavour == "shared":
+            # identical consecutive poses are the same array object (poses.append(poses[-1]) / [pose] * k)
+            for k in range(1, len(poses)):
+                if poses[k].tobytes() == poses[k - 1].tobytes():  # (bitwise: -0.0 is not 0.0)
+                    poses[k] = poses[k - 1]
         if flavour == "stacked":
             poses = np.stack(poses)  # one N x 4 x 4 array instead of a list of matrices
         if stamped:
@@ -230,7 +249,7 @@ def all_integer(a):
 
 def rand_flavour(rng):
     u = rng.random()
-    base = "lists" if u < .15 else "int" if u < .3 else "stacked" if u < .45 else "array64"
+    base = "lists" if u < .15 else "int" if u < .3 else "stacked" if u < .45 else "shared" if u < .6 else "array64"
     return base + ("+sub" if rng.random() < .1 else "")
 
 
@@ -344,13 +363,20 @@ def age(rng, traj, p=0.5):
     names = ["positions_xyz", "orientations_quat_wxyz", "poses_se3", "distances", "path_length", "num_poses"]
     if hasattr(traj, "timestamps") and traj.num_poses >= 2:
         names.append("speeds")
+    from evo.core.trajectory import TrajectoryException
     for a in names:
         if rng.random() < .35:
-            getattr(traj, a)
+            try:
+                getattr(traj, a)
+            except TrajectoryException:
+                pass  # e.g. speeds of a trajectory whose stamps are not ascending: refused by design
             done.append(a)
     if rng.random() < .2:
-        traj.get_infos()
-        traj.check()
+        try:
+            traj.get_infos()
+            traj.check()
+        except TrajectoryException:
+            pass
         done.append("get_infos+check")
     return done
 
